@@ -18,6 +18,16 @@ import fakenet
 import sched
 
 
+def quiet_stderr():
+    """Worker processes: wpull logs fetch errors to stderr whatever the verbosity; drop them.
+    (Exceptions of the harness itself still travel back through the executor.)"""
+    try:
+        fd = os.open(os.devnull, os.O_WRONLY)
+        os.dup2(fd, 2)
+    except OSError:
+        pass
+
+
 class Page:
     """What the server answers for one path."""
 
@@ -216,7 +226,7 @@ class CrawlResult:
 
 def default_argv(start_urls, db_path, out_dir, concurrent=1, extra=()):
     return list(start_urls) + ['--html-parser', 'html5lib', '--database', db_path, '--concurrent', str(concurrent),
-                               '-q', '--waitretry', '0', '--tries', '2', '-P', out_dir, '--no-host-directories',
+                               '-q', '-o', os.devnull, '--waitretry', '0', '--tries', '2', '-P', out_dir, '--no-host-directories',
                                '--timeout', '50'] + list(extra)
 
 
@@ -257,6 +267,9 @@ def run_crawl(start_urls, site, seed=0, concurrent=1, extra=(), workdir=None, po
     trace = TableTrace()
     trace.on_event = on_table_event
     cwd = os.getcwd()
+    import logging
+    if not logging.getLogger().handlers:
+        logging.getLogger().addHandler(logging.NullHandler())
     try:
         net.install()
         from wpull.application.options import AppArgumentParser
